@@ -680,7 +680,7 @@ theorem apiAstype_sameC {m₁ m₂ : MapObj} (hc : m₁.SameC m₂) (hv : m₁.B
           if (s₂.sp.toList.filter m₁.vc.valid).any (fun x => (convCell src dst x).isNone) then
             .error .inexact
           else .ok { m₁ with kind := .plain dst, sent := sent', cache := none,
-                            st := astypeMap m₁.vc s₂ (fun x => (convCell src dst x).getD x) sent' })
+                            st := (astypeMap m₁.vc s₂ (fun x => (convCell src dst x).getD x) sent') })
   cases ApiScalar.astypeSrc m₁.kind with
   | none => exact ExR.err _
   | some src =>
